@@ -515,7 +515,8 @@ Walk:
 			//		x/ [leaf=/foo/x/]
 			// But the parent (/foo) could be a leaf. This is only valid if we have an exact match with
 			// the intermediary node (charsMatched == len(path)).
-			if strings.HasSuffix(path, "/") && parent != nil && parent.isLeaf() && charsMatched == len(path) {
+			if strings.HasSuffix(path, "/") && parent != nil && parent.isLeaf() && charsMatched == len(path) &&
+				charsMatchedInNodeFound == 1 && current.key[0] == slashDelim {
 				tsr = true
 				n = parent
 				// Save also a copy of the matched params, it should not allocate anything in most case.
